@@ -64,6 +64,8 @@ class C05(Prop):
                     acts.append(['enq', 0, 'keepalive', 0, 3, False])
                 elif x < 0.53:
                     acts.append(['front', 0, 'keepalive', 0, 3, False])
+                elif x < 0.62 and x >= 0.58:
+                    acts.append(['libreqn', sid, 0])
                 elif x < 0.58:
                     # the peer re-uses a stream id that is open: the library itself queues ERROR[REJECTED] on that stream
                     acts.append(['peerdup', sid])
@@ -93,6 +95,7 @@ class C05(Prop):
         server = RSocketServer(t, fragment_size_bytes=case['F'], handler_factory=Quiet)
         await loop.settle()
         opened = set()
+        lib_subs = {}        # sid -> subscriber of a request-stream the library itself opened (REQUEST_N goes through StreamHandler.send_request_n)
         events = []       # model events
         sources = []      # (tag, sid, kind, k)
         seen = 0
@@ -104,8 +107,34 @@ class C05(Prop):
                 events.append('s')
                 seen += 1
 
+        class LSub:
+            subscription = None
+            def on_subscribe(self, s): self.subscription = s
+            def on_next(self, v, is_complete=False): pass
+            def on_complete(self): pass
+            def on_error(self, e): pass
         for a in case['acts']:
-            if a[0] == 'peerdup':
+            if a[0] == 'libreqn':
+                # frames the library queues through its own helpers: the REQUEST_STREAM of a requester it opens, later its REQUEST_N
+                _, want_sid, n = a
+                sub = lib_subs.get(want_sid)
+                if sub is None:
+                    if not lib_subs:
+                        server._stream_control._current_stream_id = 98      # ids the library allocates: 100, 102, ... (apart from the harness's 2..8)
+                    req = server.request_stream(Payload(b'lib'))
+                    sid = req.stream_id
+                    sub = lib_subs[want_sid] = LSub()
+                    sub.sid = sid
+                    tag = len(sources) + 1
+                    sources.append({'tag': tag, 'sid': sid, 'kind': 'lib-request', 'k': 1, 'frame': None})
+                    events.append('e%d:%d' % (sid, tag * 100))
+                    req.initial_request_n(1).subscribe(sub)
+                else:
+                    tag = len(sources) + 1
+                    sources.append({'tag': tag, 'sid': sub.sid, 'kind': 'lib-request-n', 'k': 1, 'frame': None, 'n': 1000 + tag})
+                    events.append('e%d:%d' % (sub.sid, tag * 100))
+                    sub.subscription.request(1000 + tag)
+            elif a[0] == 'peerdup':
                 sid = a[1]
                 if sid not in opened:
                     opened.add(sid)
@@ -180,6 +209,16 @@ class C05(Prop):
         from rsocket.frame import PayloadFrame, ErrorFrame, CancelFrame, RequestNFrame, KeepAliveFrame
         for s in sources:
             f0 = s['frame']
+            if f0 is None and s['kind'] == 'lib-request':
+                from rsocket.frame import RequestStreamFrame
+                if isinstance(fr, RequestStreamFrame) and fr.stream_id == s['sid'] and not s.get('_used'):
+                    s['_used'] = True
+                    return s['tag']
+                continue
+            if f0 is None and s['kind'] == 'lib-request-n':
+                if isinstance(fr, RequestNFrame) and fr.stream_id == s['sid'] and fr.request_n == s['n']:
+                    return s['tag']
+                continue
             if f0 is None:
                 # queued by the library itself: ERROR[REJECTED] for a request on an open stream id (the harness's own errors are APPLICATION_ERROR)
                 if isinstance(fr, ErrorFrame) and fr.stream_id == s['sid'] and int(fr.error_code) == 0x202 and not s.get('_used'):
